@@ -38,10 +38,11 @@ OPS_W = [("drop_buses", 3), ("drop_lines", 3), ("drop_trafos", 3), ("drop_elemen
          ("decorate", 3), ("drop_elements_simple", 2), ("drop_switches_at_buses", 1),
          ("drop_measurements_at_elements", 1), ("drop_controllers", 1), ("drop_duplicated_measurements", 1),
          ("drop_inner_branches", 2), ("merge_parallel_line", 1), ("merge_same_bus_generation_plants", 1),
-         ("repl_to_line", 1), ("create_dangling", 3)]
+         ("repl_to_line", 1), ("create_dangling", 3), ("drop_group_and_elements", 1), ("calc_sc", 1)]
 DANGLING = ["load", "loads", "gen", "sgens", "shunt", "storage", "ward", "xward", "line", "lines", "impedance", "dcline",
             "trafo", "trafo3w", "switch_b", "switch_l", "switch_t", "switch_t3", "switches", "meas_bus", "meas_line",
-            "meas_trafo3w", "poly_cost", "pwl_cost", "poly_costs", "pwl_costs", "group", "group_refcol"]
+            "meas_trafo3w", "poly_cost", "pwl_cost", "poly_costs", "pwl_costs", "group", "group_refcol", "group_attach",
+            "group_attach_new_row"]
 SIMPLE_DROP_ET = ["load", "sgen", "gen", "shunt", "impedance", "storage", "ward", "xward", "measurement", "poly_cost"]
 REINDEX_ET = ["line", "trafo", "trafo3w", "load", "sgen", "gen", "ext_grid", "switch", "shunt", "impedance",
               "measurement", "poly_cost", "storage", "xward", "ward", "group"]
@@ -92,9 +93,11 @@ def generate(rng, idx, tier):
         elif f == "reindex_buses":
             op.update(shift=rng.choice([1, 50, 1000]), partial=rng.random() < 0.5)
         elif f == "fuse_buses":
-            op.update(drop=rng.random() < 0.8)
+            op.update(drop=rng.random() < 0.8, fuse_meas=rng.random() < 0.7)
         elif f == "merge_nets":
             op.update(other=rng.choice(["feeder", "case9", "four_bus"]))
+        elif f == "select_subnet":
+            op.update(switch_buses=rng.random() < 0.3, keep_else=rng.random() < 0.3)
         elif f == "decorate":
             op.update(k=rng.randrange(1000))
         ol.append(op)
@@ -212,6 +215,11 @@ def ref_integrity(net):
             bad = [int(e) for e in m.element.values if e not in idx]
             if bad:
                 out.append(("measurement.element", tab, f"measurements refer to missing {tab} {bad[:4]}"))
+        sides = [int(x) for x in net.measurement.side.values
+                 if isinstance(x, (int, np.integer, float)) and not isinstance(x, bool) and not pd.isna(x)]
+        bad = [x for x in sides if x not in bus_idx]
+        if bad:
+            out.append(("measurement.side", "bus", f"measurement sides given as bus index refer to missing buses {bad[:4]}"))
     for cost in ("poly_cost", "pwl_cost"):
         if cost in net and len(net[cost]):
             for tab in sorted(set(net[cost].et.values)):
@@ -300,9 +308,18 @@ def execute(ep, ctx):
         try:
             new_net, fam, info = apply_op(net, op)
         except Exception as e:
+            # the operation refused the input: what it leaves behind must be intact as well (no half-created rows)
+            left = [(a, b, c) for a, b, c in ref_integrity(net) if (a, b) not in pre]
+            sigs_x = []
+            for kind, tab, detail in left:
+                sig = f"C22|{k}{':' + str(op.get('what') or op.get('et') or '') if (op.get('what') or op.get('et')) else ''}" \
+                      f" raised {type(e).__name__}|{kind}|{tab}"
+                if sig not in sigs_x:
+                    sigs_x.append(sig)
+                    ctx.violation(sig, f"op{i} {k} raised {type(e).__name__} ({e!s:.80}) and left behind: {detail}", op=i)
             net = before
             ctx.probe("op_rejected_and_rolled_back")
-            ctx.event(k, "rejected", type(e).__name__)
+            ctx.event(k, "rejected", type(e).__name__, sigs_x)
             continue
         if new_net is None:
             ctx.event(k, "noop")
@@ -331,9 +348,29 @@ def execute(ep, ctx):
                 sigs.append(sig)
                 ctx.violation(sig, f"op{i} {fam}({info}): {detail}", op=i)
         ctx.event(k, fam, "ok", len(net.bus), len(net.line), sigs)
-        if viol:
-            # continue from a repaired state so that later ops are judged on their own
-            pass
+        if sigs:
+            # the episode continues from the state before the offending operation, so that later operations are
+            # judged on a consistent net (a dangling reference makes e.g. a later reindex fail half-way)
+            net = before
+
+
+def _attach_missing(net, existing_row):
+    from pandapower.groups import attach_to_group
+    if not len(net.group):
+        raise UserWarning("no group")
+    rows = net.group[net.group.reference_column.isnull()]
+    if not len(rows):
+        raise UserWarning("no index-based group row")
+    g = rows.index[0]
+    if existing_row:
+        et = rows.element_type.iloc[0]
+    else:
+        have = set(net.group.element_type[net.group.index == g])
+        et = next((t for t in ("storage", "shunt", "gen", "sgen", "load", "line") if t not in have and t in net), None)
+        if et is None:
+            raise UserWarning("no free element type")
+    missing = (max(net[et].index) if len(net[et]) else 0) + 50
+    attach_to_group(net, g, et, [[missing]])
 
 
 def _pick_many(net, tab, a, n):
@@ -427,11 +464,26 @@ def apply_op(net, op):
             "group": lambda: pp.create_group(net, ["load"], [[missing("load")]], name="dangling"),
             "group_refcol": lambda: pp.create_group(net, ["bus"], [["no such bus name"]], name="dangling_rc",
                                                     reference_columns="name"),
+            # attach to an existing index-based group row / as a new row of an existing group
+            "group_attach": lambda: _attach_missing(net, existing_row=True),
+            "group_attach_new_row": lambda: _attach_missing(net, existing_row=False),
         }
         if okb is None or okb2 is None:
             return None, k, ""
         calls[w]()
         return net, f"create_dangling:{w}", ""
+    if k == "drop_group_and_elements":
+        from pandapower.groups import drop_group_and_elements
+        gs = sorted(set(net.group.index.tolist())) if len(net.group) else []
+        g = ops.pick(gs, a)
+        if g is None or "bus" in net.group.element_type[net.group.index == g].tolist():
+            return None, k, ""
+        drop_group_and_elements(net, g)
+        return net, k, str(g)
+    if k == "calc_sc":
+        import pandapower.shortcircuit as sc
+        sc.calc_sc(net, case="max")
+        return net, "calc_sc", ""
     if k == "drop_elements_simple":
         et = op["et"]
         es = _pick_many(net, et, a, 1 + b % 2)
@@ -517,15 +569,17 @@ def apply_op(net, op):
         b2 = ops._same_level_bus(net, b1, b) if b1 is not None else None
         if b2 is None:
             return None, k, ""
-        tb.fuse_buses(net, b1, [b2], drop=op["drop"])
-        return net, f"fuse_buses:drop={op['drop']}", f"{b1}<-{b2}"
+        tb.fuse_buses(net, b1, [b2], drop=op["drop"], fuse_bus_measurements=op.get("fuse_meas", True))
+        return net, f"fuse_buses:drop={op['drop']}" + ("" if op.get("fuse_meas", True) else ":fuse_bus_measurements=False"), \
+            f"{b1}<-{b2}"
     if k == "select_subnet":
         buses = _pick_many(net, "bus", a, max(3, len(net.bus) * 2 // 3))
         for eb in net.ext_grid.bus.values:
             if eb not in buses:
                 buses.append(int(eb))
-        new = tb.select_subnet(net, buses, include_results=bool(b % 2))
-        return new, "select_subnet", f"{len(buses)} buses"
+        new = tb.select_subnet(net, buses, include_results=bool(b % 2), include_switch_buses=op.get("switch_buses", False),
+                               keep_everything_else=op.get("keep_else", False))
+        return new, "select_subnet" + (":keep_everything_else" if op.get("keep_else") else ""), f"{len(buses)} buses"
     if k == "merge_nets":
         other = decorate(nets.get(op["other"]), a)
         new = tb.merge_nets(net, other, validate=False, net2_reindex_log_level=None)
